@@ -21,6 +21,15 @@ object: discretize; flip Dirichlet/Neumann on every second boundary face by muta
 same object in place and rescale the flux magnitudes without changing any sign; discretize
 again and compare with a discretization on a fresh dictionary with a fresh object; flip back,
 rescale again, discretize and compare with the first result.
+
+Part "asm" (``Upwind.assemble_matrix_rhs`` on one data dictionary, one component): after one
+``discretize`` the first assembly equals div diag(q) U and div (N + D diag(q)) bc_values
+built from copies of the stored matrices; every stored matrix and every parameter (flux
+array, boundary object, boundary values) is bitwise unchanged by assembling (purity);
+assembling 3 times gives identical (A, b); identical to discretize + assemble on a fresh
+dictionary; discretize -> assemble -> discretize -> assemble is identical too; and 3 explicit
+steps with A re-assembled in every step (divergence-free no-flow flux of mixed sign, dt at the
+CFL limit) conserve the amount and stay within the initial bounds.
 """
 
 from __future__ import annotations
@@ -64,7 +73,9 @@ BOUNDS = {
         "T(1,1) and 1-d C(3) (all vectors x all assignments), C(2,1) (all vectors x 4 assignments; 1e-300, 1e-17, mixed), "
         "C(2,2,2) single modifications; embedded letters T(1,1)^gen, C(2,1)^gen2 (sel) and C(2,2)~^gen (step); step part with q x 2^-60, 2^-1000, 2^100 (dt = CFL limit scales exactly). Purity: flux array per call, grid and "
         "boundary object digest per assignment; seq part (in-place flip of every second boundary face on one bc object + "
-        "rescaled fluxes, there and back) on C(3), T(1,1), C(2,1): all 3^F sign vectors x 4 assignments x components 1,2; reuse (second discretize on the same dictionary) on every 16th vector."
+        "rescaled fluxes, there and back; asm part: assemble_matrix_rhs purity / 3 repeated assemblies / fresh dictionary / "
+        "re-discretize / 3 explicit steps, on T(1,1) and C(2,1) (all sign vectors) and curl fluxes on C(2,2), C(2,2)~, T(2,2), C(3,2), "
+        "C(3,3), C(2,2,2), T(2,2)~^gen; seq part) on C(3), T(1,1), C(2,1): all 3^F sign vectors x 4 assignments x components 1,2; reuse (second discretize on the same dictionary) on every 16th vector."
     ),
     "thorough": (
         "quick + C(2,1): all vectors x all 64 assignments (components 2,3: side-wise); C(2,2): <= 1 zero x 4 assignments, "
@@ -145,6 +156,12 @@ def cases(tier):
     for spec in (c3, t11, c21):
         for comps in (1, 2):
             out.append({"part": "seq", "grid": spec, "comps": comps})
+    # assemble_matrix_rhs sequences / purity (fluxes of mixed sign)
+    out.append({"part": "asm", "grid": t11, "flux": "signs"})
+    out.append({"part": "asm", "grid": c21, "flux": "signs"})
+    for spec, coef in ((c22, "pm2"), (dict(c22, pert=[[4, [1, -1]]]), "pm2"), (t22, "pm2"), ({"kind": "C", "n": [3, 2]}, "m1to2"),
+                       ({"kind": "C", "n": [3, 3]}, "tern"), (c222, "tern"), (dict(t22, pert=[[4, [-1, 1]]], embed="gen"), "pm2")):
+        out.append({"part": "asm", "grid": spec, "flux": "curl", "coef": coef})
     # explicit transport
     steps = [
         (c22, "pm2"), (dict(c22, pert=[[4, [1, -1]]]), "pm2"), ({"kind": "Tensor", "coords": [[0, 1, 3], [0, 2, 3]]}, "pm2"),
@@ -514,8 +531,110 @@ def _run_seq(case, out):
                 out.ev(f"seq/{gname}/n{comps}/" + ("matrices-change" if changed else "matrices-same"), key)
 
 
+def _run_asm(case, out):
+    import porepy as pp
+
+    spec = case["grid"]
+    g, info = G.build_grid(spec)
+    nf, nc, dim = g.num_faces, g.num_cells, g.dim
+    bf = info["bfaces"]
+    nb = len(bf)
+    gname = G.grid_name(spec)
+    kw = "transport"
+    vol = g.cell_volumes
+    cfd = np.asarray(g.cell_faces.toarray())
+    div = cfd.T
+    full = (1 << nb) - 1
+    alt = sum(1 << i for i in range(0, nb, 2))
+    if case["flux"] == "signs":
+        mag = _magnitudes(nf)
+        fluxes = [(np.array(sv) * mag, False) for sv in U.sign_vectors(nf, nf, [])]
+        masks = G.all_assignments(nb) if nb <= 4 else [full, 0, alt, full ^ alt]
+    else:
+        basis = U.curl_basis(g)
+        fluxes = []
+        for coefs in itertools.product(COEFS[case["coef"]], repeat=len(basis)):
+            q = sum(a * b for a, b in zip(coefs, basis)) * 0.75
+            if np.any(q > 0) and np.any(q < 0):
+                fluxes.append((q, True))
+        masks = [0, full, alt]
+    bcv = np.zeros(nf)
+    bcv[bf] = 1.0 + (np.arange(nb) % 3) * 0.5
+
+    def fresh(bc, q):
+        up = pp.Upwind(kw)
+        par = {"bc": bc, "darcy_flux": q.copy(), "bc_values": bcv.copy(), "num_components": 1}
+        data = {pp.PARAMETERS: {kw: par}, pp.DISCRETIZATION_MATRICES: {kw: {}}}
+        up.discretize(g, data)
+        return up, data, par
+
+    for m in masks:
+        is_dir = G.mask_to_dir(m, nb)
+        for q, divfree in fluxes:
+            bad = None
+            try:
+                bc = G.make_bc(g, bf, is_dir)
+                up, data, par = fresh(bc, q)
+                md = data[pp.DISCRETIZATION_MATRICES][kw]
+                stored = G.dense_copy(md)
+                Ud, Dd, Nd = (stored[k] for k in (up.upwind_matrix_key, up.bound_transport_dir_matrix_key, up.bound_transport_neu_matrix_key))
+                dg0 = G.digest(md, par["darcy_flux"], par["bc"], par["bc_values"], g)
+                A1, b1 = up.assemble_matrix_rhs(g, data)
+                A1, b1 = np.array(A1.toarray()), np.array(b1)
+                A_exp = div @ (q[:, None] * Ud)
+                b_exp = div @ ((Nd + Dd * q[None, :]) @ bcv)
+                sc = max(1.0, float(np.abs(q).max())) * max(1.0, float(np.abs(bcv).max()))
+                if A1.shape != A_exp.shape or np.abs(A1 - A_exp).max() > 1e-13 * sc or np.abs(b1 - b_exp).max() > 1e-13 * sc:
+                    bad = "first assemble_matrix_rhs is not div diag(q) U / div (N + D diag(q)) bc_values"
+                elif G.digest(md, par["darcy_flux"], par["bc"], par["bc_values"], g) != dg0:
+                    after = G.dense_copy(md)
+                    changed = [k for k in stored if not np.array_equal(stored[k], after[k])]
+                    bad = "assemble_matrix_rhs modified stored discretization matrices or parameters: " + ",".join(changed)
+                else:
+                    for rep in (2, 3):
+                        A, b = up.assemble_matrix_rhs(g, data)
+                        if not (np.array_equal(np.array(A.toarray()), A1) and np.array_equal(np.array(b), b1)):
+                            bad = f"assemble_matrix_rhs call number {rep} on the same data dictionary differs from the first"
+                            break
+                if bad is None:
+                    up2, data2, _ = fresh(G.make_bc(g, bf, is_dir), q)
+                    A, b = up2.assemble_matrix_rhs(g, data2)
+                    if not (np.array_equal(np.array(A.toarray()), A1) and np.array_equal(np.array(b), b1)):
+                        bad = "repeated assembly differs from discretize + assemble on a fresh dictionary"
+                if bad is None:
+                    up.discretize(g, data)
+                    A, b = up.assemble_matrix_rhs(g, data)
+                    if not (np.array_equal(np.array(A.toarray()), A1) and np.array_equal(np.array(b), b1)):
+                        bad = "discretize -> assemble -> discretize -> assemble differs from the first assembly"
+                if bad is None and divfree:
+                    outflow = np.maximum(cfd * q[:, None], 0.0).sum(axis=0)
+                    dt = float(np.min(vol[outflow > 0] / outflow[outflow > 0]))
+                    c0 = (np.arange(nc) * 3) % 5 - 1.0
+                    c = c0.copy()
+                    for step in range(3):
+                        A, _ = up.assemble_matrix_rhs(g, data)  # re-assembled in every step, no new discretize
+                        c = c - dt * (A @ c) / vol
+                        if abs(vol @ c - vol @ c0) > 1e-12 * np.abs(vol).sum() * 4 or c.min() < c0.min() - 1e-12 or c.max() > c0.max() + 1e-12:
+                            bad = f"explicit step {step + 1} with a re-assembled matrix violates conservation or the initial bounds"
+                            break
+            except Exception as e:
+                out.violate("Upwind discretize / assemble_matrix_rhs raised", error=repr(e), grid=gname, flux=q, dirichlet_faces=bf[is_dir])
+                out.ev("exception")
+                continue
+            mixed = bool(np.any(q > 0) and np.any(q < 0))
+            key = (gname, m, tuple(np.sign(q).astype(int).tolist()), case["flux"]) if mixed else None
+            if bad:
+                out.violate(bad, grid=gname, grid_spec=spec, flux=q, dirichlet_faces=bf[is_dir], neumann_faces=bf[~is_dir], bc_values=bcv)
+                out.ev("VIOLATION", key)
+            else:
+                out.ev(f"asm/{gname}/{case['flux']}/" + ("mixed" if mixed else "one-sign"), key)
+
+
 def run_case(case) -> Outcome:
     out = Outcome()
+    if case["part"] == "asm":
+        _run_asm(case, out)
+        return out
     if case["part"] == "sel":
         _run_sel(case, out)
     elif case["part"] == "seq":
